@@ -577,6 +577,12 @@ func Connection(config *ConnectionConfig) *graphql.FieldDefinition {
 func completeConnection(config *ConnectionConfig, ctx graphql.FieldContext, beforeCursorValue, afterCursorValue any, cursorLess func(a, b any) bool, edgeSlice any) (any, error) {
 	if edgeSlice, ok := edgeSlice.(graphql.ResolvePromise); ok {
 		return chain(ctx.Context, edgeSlice, func(edgeSlice any) (any, error) {
+			// This runs in a goroutine. A promise that resolves to another promise cannot be
+			// chained from here (the request's promise bookkeeping belongs to the executor's
+			// goroutine) and the executor does not flatten promise-valued results either.
+			if _, ok := edgeSlice.(graphql.ResolvePromise); ok {
+				return nil, fmt.Errorf("unexpected promise as the result of a promise for edges")
+			}
 			return completeConnection(config, ctx, beforeCursorValue, afterCursorValue, cursorLess, edgeSlice)
 		}), nil
 	}
